@@ -176,14 +176,14 @@ pub fn strip_ws(text: &str) -> String {
     text.chars().filter(|c| !matches!(c, ' ' | '\t' | '\r' | '\n' | '\x0c')).collect()
 }
 
-const COMMENT_WORDS: &[&str] = &["c", "note: a | b", "é😀", "x*/y", "token ;", "'", "", "  two  spaces", "/* not nested"];
+const COMMENT_WORDS: &[&str] = &["c", "note: a | b", "é😀", "x*/y", "token ;", "'", "", "  two  spaces", "/* not nested", "first line\n   second line", "a\n\tb\n * c\n"];
 
 fn comment(d: &mut Dice<'_>, allow_doc: bool) -> String {
     let w = COMMENT_WORDS[d.below(COMMENT_WORDS.len())];
     match d.below(if allow_doc { 3 } else { 2 }) {
-        0 => format!("//{w}\n"),
+        0 => format!("//{}\n", w.replace('\n', " ")),
         1 => format!("/*{}*/", w.replace("*/", "* /")),
-        _ => format!("///{w}\n"),
+        _ => format!("///{}\n", w.replace('\n', " ")),
     }
 }
 
@@ -215,6 +215,13 @@ pub fn gap(d: &mut Dice<'_>, must_separate: bool, left_is_slash: bool, comments:
 
 /// Random legal layout of a grammar.
 pub fn layout(g: &Grammar, d: &mut Dice<'_>, comments: bool) -> Printed {
+    layout_with(g, d, comments, false)
+}
+
+/// `plain_comments`: comments only where the formatter's placement does not depend on the
+/// bytes in front of them (known finding K9): at most one per gap, never at the start of the
+/// text and never directly after `:`, `(` or `[`.
+pub fn layout_with(g: &Grammar, d: &mut Dice<'_>, comments: bool, plain_comments: bool) -> Printed {
     let ll = lex_list(g);
     let n = ll.lexes.len();
     let mut gaps = vec![String::new(); n + 1];
@@ -224,7 +231,18 @@ pub fn layout(g: &Grammar, d: &mut Dice<'_>, comments: bool) -> Printed {
             (Some(l), Some(r)) => !can_fuse(l, r),
             _ => false,
         };
-        let mut s = gap(d, must, left == Some("/"), comments, true);
+        let mut s = if plain_comments {
+            let ws = gap(d, must, false, false, false);
+            if comments && !matches!(left, None | Some(":") | Some("(") | Some("[")) && d.chance(1, 4) {
+                let c = comment(d, true);
+                let sep = if left == Some("/") || d.chance(1, 2) { " " } else { "" };
+                format!("{sep}{c}{ws}")
+            } else {
+                ws
+            }
+        } else {
+            gap(d, must, left == Some("/"), comments, true)
+        };
         // a comment that swallows the rest of the line must not end the text without newline;
         // a gap made only of a block comment between two words still separates them
         if must && !s.chars().any(|c| c.is_whitespace()) && !s.contains("*/") {
@@ -233,6 +251,29 @@ pub fn layout(g: &Grammar, d: &mut Dice<'_>, comments: bool) -> Printed {
         gaps[i] = s;
     }
     join(&ll, &gaps)
+}
+
+/// Does the text contain a comment in one of the placements of known finding K9 (at the start
+/// of the text, directly after `:`, `(`, `[`, or directly after another comment)?
+pub fn k9_shape(text: &str) -> bool {
+    let lex = split(text);
+    let mut prev: Option<(LexKind, &str)> = None;
+    for l in &lex {
+        if l.kind == LexKind::Ws {
+            continue;
+        }
+        let t = &text[l.start..l.end];
+        if matches!(l.kind, LexKind::LineComment | LexKind::DocComment | LexKind::BlockComment) {
+            match prev {
+                None => return true,
+                Some((LexKind::LineComment | LexKind::DocComment | LexKind::BlockComment, _)) => return true,
+                Some((LexKind::Punct, ":" | "(" | "[")) => return true,
+                _ => {}
+            }
+        }
+        prev = Some((l.kind, t));
+    }
+    false
 }
 
 /// the lexical items of the grammar language used for bounded-exhaustive text enumeration
